@@ -60,6 +60,7 @@ def chain2Sem : Sem chain2 where
     · simp at hs; rcases hs with rfl | rfl <;> rfl
   slotKeep := by
     intro n s hs _
+    right
     simp only [chain2] at hs
     split at hs
     · simp at hs
